@@ -342,3 +342,89 @@ func witnessLookupVsFlush(c *core.Ctx, db string) error {
 	c.NonTrivial()
 	return r.err
 }
+
+// witnessFailedFlush: names are frozen by PrepareFlush, a new name is created in the same bucket, the
+// flush FAILS at its kv family commit. The failed flush must leave every dictionary as it was: the
+// first names keep their ids — in this process and after a later successful flush and reopen.
+func witnessFailedFlush(c *core.Ctx, db string) error {
+	r, err := newRunner(c, db, 1, 0)
+	if err != nil {
+		return err
+	}
+	defer r.close()
+	r.o.tag = "flush-failed-"
+	r.metric(0, 0)
+	r.metric(0, 1)
+	mid, _ := r.metric(0, 2)
+	tk, _ := r.tagKey(int(mid), 0)
+	r.tagValue(int(tk), 0)
+	r.mprepare()
+	r.metric(0, 3) // same bucket (namespace id) as the frozen names
+	r.tagValue(int(tk), 1)
+	r.mflushfail()
+	r.metric(0, 0)
+	r.metric(0, 1)
+	r.tagValue(int(tk), 0)
+	r.mflushfail()
+	r.metric(0, 2)
+	r.mprepare()
+	r.mflush()
+	r.reopen()
+	r.metric(0, 0)
+	r.metric(0, 3)
+	r.tagValue(int(tk), 0)
+	c.Branch("witness-failed-flush")
+	c.NonTrivial()
+	return r.err
+}
+
+// witnessSchemaCacheRace: reader ‖ writer ‖ flush on a schema that is persisted and not in memory.
+// A reader's GetSchema has read the kv family and is stopped before cache.Add (yield
+// index.schema.getSchema.beforeCacheAdd); a writer creates field f2; PrepareFlush + Flush (commit,
+// purge of the LRU cache); the reader continues and caches its — now stale — schema; a writer creates
+// field f3. The create path must not trust the cache: f3 must not get f2's id.
+func witnessSchemaCacheRace(c *core.Ctx, db string) error {
+	r, err := newRunner(c, db, 1, 0)
+	if err != nil {
+		return err
+	}
+	defer r.close()
+	r.o.tag = "schema-cache-"
+	mid, _ := r.metric(0, 0)
+	m := int(mid)
+	r.field(m, 1)
+	r.mprepare()
+	r.mflush() // schema {f1=0} is persisted and has left memory
+	op := fmt.Sprintf("scrace %d %d %d", m, 2, 3)
+	var b, cc string
+	var parked bool
+	r.guard(op, func() string {
+		_, b, parked = raceTwo("index.schema.getSchema.beforeCacheAdd",
+			func() string { return r.s.schemaOut(m) },
+			func() string {
+				out := idOut(r.s.genField(m, 2))
+				r.s.meta.PrepareFlush()
+				if err := r.s.meta.Flush(); err != nil {
+					return errKind(err)
+				}
+				return out
+			})
+		cc = idOut(r.s.genField(m, 3))
+		return "B=" + b + " C=" + cc
+	})
+	if !parked {
+		c.Fail("witness-not-scheduled", "scrace: GetSchema never reached yield point index.schema.getSchema.beforeCacheAdd")
+	}
+	r.o.syncDone()
+	if id, ok := parseID(b); ok {
+		r.o.observe(nameKey{"field", strconv.Itoa(m), "2"}, id, op)
+	}
+	if id, ok := parseID(cc); ok {
+		r.o.observe(nameKey{"field", strconv.Itoa(m), "3"}, id, op)
+	}
+	r.field(m, 2)
+	r.schema(m)
+	c.Branch("witness-schema-cache-race")
+	c.NonTrivial()
+	return r.err
+}
